@@ -25,7 +25,15 @@ fn judge(first: Outcome) -> String {
     let text1 = String::from_utf8_lossy(&first.pipelines[0].data).to_string();
     let second = compile_src(&[("generated.hlsl", &text1)], "generated.hlsl", "HlslForDirectX", true, false, None, &[]);
     if second.kind == "PANIC" { return format!("PANIC second {}", second.text.lines().next().unwrap_or("")); }
-    if second.kind != "OK" || second.pipelines.len() != 1 { return format!("REJECT {}", second.text.lines().take(2).collect::<Vec<_>>().join(" | ")); }
+    if second.kind != "OK" || second.pipelines.len() != 1 {
+        let mut msg = second.text.lines().take(2).collect::<Vec<_>>().join(" | ");
+        // a message without a position: the lines of the emitted text that hold both a `<` and a `>` are given instead
+        // (the front end reads `a < b > (c)` as explicit template arguments and fails in several ways)
+        if !second.text.contains("generated.hlsl:") {
+            for l in text1.lines().filter(|l| l.contains('<') && l.contains('>') && !l.trim_start().starts_with("template")).take(12) { msg += " | "; msg += l.trim(); }
+        }
+        return format!("REJECT {}", msg);
+    }
     let text2 = String::from_utf8_lossy(&second.pipelines[0].data).to_string();
     if text1 != text2 {
         let pos = text1.bytes().zip(text2.bytes()).take_while(|(a, b)| a == b).count();
